@@ -1,6 +1,7 @@
 /- driver ops for the Python-side models (PyTape, NumEval) -/
 import BB.Model.Instrs
 import BB.Model.NumEval
+import BB.Model.NumMod
 
 namespace BB.Driver.OpsPy
 
@@ -104,6 +105,11 @@ def handle (op : String) (args : List String) (text : String) : Option String :=
   match op, args with
   | "numcheck", [o, _m] => some (numcheck o text)
   | "numeval", [] => some (numeval text)
+  | "expmod", [b, e, m] =>
+    -- the model of `Exp(base, exp).__mod__(mod)` (BB/Model/NumMod.lean; theorems BB/Props/C18.lean)
+    some <| match BB.NumMod.expModInt b.toNat! e.toNat! m.toNat! with
+      | some r => toString r
+      | none => "raise"
   | _, _ => none
 
 end BB.Driver.OpsPy
